@@ -134,6 +134,9 @@ GenSimple ==
      \/ /\ Has("interp2") /\ \E x \in Visible, y \in Visible : AddStmt(Shout(id, Interp2(x, y)))
      \* type juggling: a variable declared at one type is re-assigned at another (accepted by the checker)
      \/ /\ Has("juggle") /\ \E x \in Assignable : AddStmt(Set(id, x, IF P.ty = "num" THEN StrC(id) ELSE Num(id)))
+     \* a same-scope re-declaration at another type, then a use that is only legal at the new type
+     \/ /\ Has("redecl") /\ \E use \in {Bin("minus", Var("t"), Num(1)), Bin("lt", Var("t"), Num(1)), [k |-> "un", op |-> "neg", e |-> Var("t")]} :
+             AddStmt([k |-> "block", id |-> id, b |-> <<Make(id + 500, "t", StrC(1)), Make(id + 501, "t", Num(2)), Shout(id + 502, use)>>])
      \/ /\ Has("ret") /\ InFun /\ \E e \in Exprs(id) : AddStmt(Ret(id, e))
      \* arrays ("arr" = all of these, or the single productions "arr.make" "arr.copy" "arr.push" "arr.seti" "arr.shout")
      \/ /\ (Has("arr") \/ Has("arr.make")) /\ \E a \in ArrNames \cap P.names, e \in Exprs(id) : AddDecl(Make(id, a, ArrE(<<e>>)), a)
@@ -190,7 +193,10 @@ GenOpen ==
 \* ---------- C09: one violation of one static rule, injected at any position and nesting ----------
 \* (profiles with "inject"; `inj` remembers which rule was broken: the expected verdict)
 Bad(id, rule) ==
-  CASE rule = "undeclared-variable" -> {Shout(id, Var("zz")), Shout(id, Interp("zz"))} \cup {ExprS(id, Call(f, <<Var("zz")>>)) : f \in {g \in VisibleFuns : P.arity[g] = 1}}
+  CASE rule = "undeclared-variable" -> {Shout(id, Var("zz")), Shout(id, Interp("zz")),
+                                        \* the initialiser of a `make` is resolved before its own name is declared
+                                        Make(id, "zz", Var("zz")), Make(id, "zz", Bin("add", Var("zz"), Atom(id))), Make(id, "zz", Interp("zz"))}
+                                       \cup {ExprS(id, Call(f, <<Var("zz")>>)) : f \in {g \in VisibleFuns : P.arity[g] = 1}}
     [] rule = "assign-undeclared" -> {Set(id, "zz", Atom(id))}
     [] rule = "undeclared-function" -> {ExprS(id, Call("gg", <<>>)), Shout(id, Call("gg", <<Atom(id)>>))}
     [] rule = "arity" -> {ExprS(id, Call(f, IF P.arity[f] = 0 THEN <<Atom(id)>> ELSE <<>>)) : f \in VisibleFuns}
@@ -201,7 +207,10 @@ Bad(id, rule) ==
     [] rule = "type" -> {Shout(id, Bin("minus", StrC(1), Num(1))), Shout(id, Bin("lt", StrC(1), Num(1))), Shout(id, Bin("and", Num(1), [k |-> "bool", v |-> TRUE])),
                          Shout(id, [k |-> "un", op |-> "not", e |-> Num(1)]), Shout(id, [k |-> "un", op |-> "neg", e |-> StrC(1)]),
                          [k |-> "if", id |-> id, c |-> Num(1), t |-> <<Shout(id + 500, Num(1))>>, f |-> <<>>],
-                         Shout(id, Idx(Num(1), Num(0))), Shout(id, Idx(ArrE(<<Num(1)>>), StrC(1)))}
+                         Shout(id, Idx(Num(1), Num(0))), Shout(id, Idx(ArrE(<<Num(1)>>), StrC(1))),
+                         \* a same-scope re-declaration changes the variable's static type
+                         [k |-> "block", id |-> id, b |-> <<Make(id + 500, "t", Num(1)), Make(id + 501, "t", StrC(1)), Shout(id + 502, Bin("minus", Var("t"), Num(1)))>>],
+                         [k |-> "block", id |-> id, b |-> <<Make(id + 500, "t", Num(1)), Make(id + 501, "t", StrC(1)), Shout(id + 502, [k |-> "un", op |-> "neg", e |-> Var("t")])>>]}
     [] OTHER -> {}
 Rules == {"undeclared-variable", "assign-undeclared", "undeclared-function", "arity", "break-outside-loop", "continue-outside-loop",
           "return-outside-function", "reserved-name", "type", "duplicate-function", "duplicate-parameter"}
